@@ -46,6 +46,10 @@ type Op struct {
 	NextUpdate   string `json:"nextUpdate,omitempty"`
 	NextRecovery string `json:"nextRecovery,omitempty"`
 
+	// VersionDelta is the maximum operation time delta of the protocol version the operation is applied under
+	// (the version its stamp selects); 0 = the Params default.
+	VersionDelta uint64 `json:"versionMaxTimeDelta,omitempty"`
+
 	Delta   string                 `json:"delta,omitempty"` // delta class
 	Markers map[string]interface{} `json:"markers,omitempty"`
 	// Removes lists marker names removed by the delta (applied after Markers are set).
@@ -83,6 +87,13 @@ type State struct {
 // Params are the protocol parameters the model depends on.
 type Params struct {
 	MaxTimeDelta uint64
+}
+
+func (p Params) deltaFor(o *Op) uint64 {
+	if o.VersionDelta != 0 {
+		return o.VersionDelta
+	}
+	return p.MaxTimeDelta
 }
 
 // InWindow is the signed anchoring window predicate.
@@ -186,7 +197,7 @@ func Resolve(all []*Op, p Params) *State {
 				if o.NextRecovery == c || consumed[o.NextRecovery] {
 					continue
 				}
-			} else if !InWindow(o.From, o.Until, o.Time, p.MaxTimeDelta) {
+			} else if !InWindow(o.From, o.Until, o.Time, p.deltaFor(o)) {
 				continue
 			}
 			pick = o
@@ -213,7 +224,7 @@ func Resolve(all []*Op, p Params) *State {
 		st.Update = ""
 		if !badDelta(pick.Delta) {
 			st.Update = pick.NextUpdate
-			if pick.Delta == DeltaGood && InWindow(pick.From, pick.Until, pick.Time, p.MaxTimeDelta) {
+			if pick.Delta == DeltaGood && InWindow(pick.From, pick.Until, pick.Time, p.deltaFor(pick)) {
 				st.Doc = applyMarkers(map[string]interface{}{}, pick)
 			}
 		}
@@ -256,7 +267,7 @@ func Resolve(all []*Op, p Params) *State {
 		st.UpdatedTime = pick.Time
 		st.VersionID = pick.Ref
 		st.Update = pick.NextUpdate
-		if pick.Delta == DeltaGood && InWindow(pick.From, pick.Until, pick.Time, p.MaxTimeDelta) {
+		if pick.Delta == DeltaGood && InWindow(pick.From, pick.Until, pick.Time, p.deltaFor(pick)) {
 			st.Doc = applyMarkers(st.Doc, pick)
 		}
 	}
